@@ -215,30 +215,12 @@ for _mask, _pm in ((0, 0), (7, 0), (7, 7), (7, 5), (7, 2), (5, 4), (2, 2), (3, 1
         domain="map subset %d with positions on %d" % (_mask, _pm), functions=["Airplanes::all_position"], timeout=600)
 add("trk_incr_time", "rsadsb_common", T + "obl_incr_time", props=["C15", "C12", "C01"], stubs=["fmt", ENTRY, NOW], unwind=6, features=("std",),
     domain="fully symbolic record x all 2^32 clock values", functions=["Airplanes::incr_messages"], timeout=900)
-_PR = [(100, 100, 90, 80, 10), (100, 91, 90, 89, 10), (100, 100, 100, 100, 0), (100, 50, 150, 100, 20), (5, 0, 5, 3, 3), (1000, 999, 0, 500, 1000)]
-for _i, (_now, _a, _b2, _c, _thr) in enumerate(_PR):
-    add("trk_prune_%d" % _i, "rsadsb_common", T + "obl_prune", args="%d, %d, %d, %d, %d" % (_now, _a, _b2, _c, _thr), props=["C15", "C01"],
-        stubs=["fmt", NOW], unwind=8, features=("std",), bounded="3 records, concrete clock / last-heard / threshold values around the boundary",
-        tier="quick" if _i < 4 else "thorough", domain="now=%d last-heard=(%d,%d,%d) T=%d" % (_now, _a, _b2, _c, _thr), functions=["Airplanes::prune"], timeout=600)
-
-add("frame_any_native", "adsb_deku", F + "obl_frame_any", props=["native-oracle"], stubs=[], tier="native",
-    domain="native oracle: any buffer of 0..=32 bytes", functions=["Frame::from_bytes"])
-
-# ---- C19: reader independence -------------------------------------------------------------------
-R = "crate::verif_obl_reader::"
-RD_FN = ["Frame::from_reader", "ReaderCrc::read", "ReaderCrc::seek", "Frame::read_crc"]
-for _nm, _b0, _b4 in (("df11", 0x5d, -1), ("df19", 0x98, -1), ("df24", 0xc5, -1), ("df17tc24", 0x8d, 0xc0), ("df00", 0x02, -1), ("df16", 0x80, -1), ("df20mb30", 0xa0, 0x30)):
-    add("rd_single_%s" % _nm, "adsb_deku", R + "obl_reader_frag", args="0x%02x, %d, 0, 0" % (_b0, _b4), props=["C19", "C01"], unwind=40, kani_flags=FAST,
-        tier="quick" if _nm in ("df11", "df19", "df24", "df17tc24") else "thorough", timeout=900,
-        bounded="schedule: every read delivers one byte; formats listed; frame bytes symbolic",
-        domain="complete frames, byte 0 = 0x%02x%s, all other bits symbolic; all-single-byte schedule" % (_b0, (", byte 4 = 0x%02x" % _b4) if _b4 >= 0 else ""), functions=RD_FN)
-    for _k in (0, 1, 2, 3):
-        add("rd_short%d_%s" % (_k, _nm), "adsb_deku", R + "obl_reader_frag", args="0x%02x, %d, 1, %d" % (_b0, _b4, _k), props=["C19", "C01"], unwind=40, kani_flags=FAST,
-            tier="quick" if (_nm in ("df24", "df11") and _k in (0, 1)) else "thorough", timeout=900,
-            bounded="schedule: read call #%d is short (1 byte)" % _k,
-            domain="complete frames, byte 0 = 0x%02x, all other bits symbolic; read call %d short" % (_b0, _k), functions=RD_FN)
-add("reader_any_native", "adsb_deku", R + "obl_reader_any", props=["native-oracle"], stubs=[], tier="native",
-    domain="native oracle: any buffer, any schedule", functions=RD_FN)
+_PR = [(100000, 90000, 10), (100000, 90001, 10), (100000, 89999, 10), (100300, 99800, 1), (100300, 99200, 1), (100000, 100000, 0),
+       (5000, 6000, 10), (100999, 100001, 1), (101000, 100001, 1), (3600000, 0, 3600), (3600000, 1, 3600)]
+for _i, (_now, _last, _thr) in enumerate(_PR):
+    add("trk_prune_%d" % _i, "rsadsb_common", T + "obl_prune", args="%d, %d, %d" % (_now, _last, _thr), props=["C15", "C01"],
+        stubs=["fmt", NOW], unwind=8, features=("std",), bounded="one tracked aircraft; concrete clock / last-heard (ms) / threshold values around the boundary",
+        tier="quick" if _i < 7 else "thorough", domain="now=%d ms last-heard=%d ms T=%d s" % (_now, _last, _thr), functions=["Airplanes::prune"], timeout=600)
 
 
 def select(prop, tier):
